@@ -53,3 +53,15 @@ Lemma fleet_reserve_put_cancel_delegates_src : Fleet_reserve_put_cancel_delegate
 Proof. reflexivity. Qed.
 Lemma fleet_reserve_get_cancel_delegates_src : Fleet_reserve_get_cancel_delegates = true.
 Proof. reflexivity. Qed.
+
+(* The push helpers (_push_item of Source, Machine, Splitter, Combiner), regenerated shape: in every branch exactly
+   `token = edge.reserve_put(); yield token; edge.put(token, <the item passed in>)` -- no probe, no cancellation, no other item, no
+   early return.  The model's push process (Factory.push_block) is reserve / wait / put of the item it was started with. *)
+Lemma source_push_item_shape_src : Source_push_item_shape = true.
+Proof. reflexivity. Qed.
+Lemma machine_push_item_shape_src : Machine_push_item_shape = true.
+Proof. reflexivity. Qed.
+Lemma splitter_push_item_shape_src : Splitter_push_item_shape = true.
+Proof. reflexivity. Qed.
+Lemma combiner_push_item_shape_src : Combiner_push_item_shape = true.
+Proof. reflexivity. Qed.
